@@ -27,7 +27,9 @@ class MetabookObject:
             type_names[k] = value
         self.image = None
         self.__dict__.update(copy.deepcopy(type_names))
-        self.__dict__.update(kw)
+        # None means "not given" (_json() leaves it out as well): it must not
+        # shadow a default, or dumping and loading again changes the metabook
+        self.__dict__.update({k: v for k, v in kw.items() if v is not None or k not in type_names})
         self.type = self.__class__.__name__
 
     def __getitem__(self, key):
